@@ -66,6 +66,7 @@ class Result:
         self.sample = None       # abbreviated, json-able description of the case
         self.skipped = None      # reason when the case lies outside the property's domain
         self.evals = 1           # executions of the code under test this case stands for
+        self.cover = []          # small strings: cells of a finite coverage table the case falls into
 
     def fail(self, clause, sig, detail=''):
         self.failures.append(failure(clause, sig, detail))
@@ -88,8 +89,10 @@ class Stats:
         self.exhaustive = []      # descriptions of fully enumerated sub-domains
         self.notes = []
         self.harness_errors = []
+        self.cover = set()
 
     def merge(self, other):
+        self.cover |= other.cover
         self.cases += other.cases
         self.evaluations += other.evaluations
         self.keys |= other.keys
@@ -130,6 +133,7 @@ class Ctx:
         st.evaluations += res.evals
         for lab in res.labels:
             st.labels[lab] += 1
+        st.cover.update(res.cover)
         if res.skipped:
             st.skipped[res.skipped] += 1
         if res.nontrivial:
@@ -425,6 +429,8 @@ def write_evidence(pid, tier, seed, mod, stats, wall, violations):
         'notes': stats.notes,
         'engine': getattr(mod, 'ENGINE', 'hypothesis'),
     }
+    if getattr(mod, 'COVER_TABLE', None):
+        cov['coverage_table'] = {'what': mod.COVER_TABLE, 'cells_reached': len(stats.cover)}
     evid = {'property_id': pid, 'tier': tier, 'seed': int(seed), 'level': 'exploration',
             'coverage': cov, 'assumptions': getattr(mod, 'ASSUMPTIONS', []),
             'wall_s': round(wall, 2), 'violations': int(violations)}
